@@ -5,8 +5,10 @@
 //!    <ctx: - | A v*17> <instr hex|-> <kind> <n> (a b p)*n
 //!      whole process_minidump on a synthesized dump
 //!  Q <arch: processor_architecture> <os> <code> <exception_flags> <nparams> <info0> <info1> <excaddr>
-//!    <ctx> <instr hex|-> <decoded: D lea n (base index scale disp)*n | U | -> <kind> <n> (a b p)*n
-//!      whole process_minidump; answer = adjusted#flips (adjusted = none | nc:<addr> | null:<offset>)
+//!    <ctx> <bytes at rip hex|-> <stack bytes at rsp hex|-> <decoded: D lea memsize implicit ipk ipv n (base index scale disp)*n | U | ->
+//!    <kind> <n> (a b p)*n
+//!      whole process_minidump; answer = adjusted#flips#accesses#ipupdate (adjusted = none | nc:<addr> | null:<offset>;
+//!      accesses = -2 no analysis | -1 undetermined | addr:nullflag,...; ipupdate = -2 | -1 | 0 none | 1:addr:nullflag)
 //! answer: [prefix#]flip,flip,...   flip = addr:reg:nc:null:low:nearby:poison:confbits
 use minidump::format as md;
 use minidump::*;
@@ -133,9 +135,10 @@ fn run_dump(
     excaddr: u64,
     ctxv: Option<Vec<u64>>,
     instr: &[u8],
+    stack_bytes: &[u8],
     kind: u64,
     regs: &[(u64, u64, u64)],
-) -> (u64, String, String, String) {
+) -> (u64, String, String, String, String) {
     let e = TEndian::Little;
     let vals = ctxv.clone().unwrap_or(vec![0; 17]);
     let rip = vals[16];
@@ -147,7 +150,11 @@ fn run_dump(
     } else {
         x86_context(e, rip as u32, rsp as u32)
     };
-    let stack = Memory::with_section(Section::with_endian(e), 0);
+    let stack = if stack_bytes.is_empty() {
+        Memory::with_section(Section::with_endian(e), 0)
+    } else {
+        Memory::with_section(Section::with_endian(e).append_bytes(stack_bytes), rsp)
+    };
     let thread = Thread::new(e, 1, &stack, &context);
     let system_info = SystemInfo::new(e)
         .set_processor_architecture(arch)
@@ -188,7 +195,36 @@ fn run_dump(
         Some(AdjustedAddress::NonCanonical(a)) => format!("nc:{}", a.0),
         Some(AdjustedAddress::NullPointerWithOffset(o)) => format!("null:{}", o.0),
     };
-    (ei.address.0, adj, format!("{}", ei.reason), fmt_flips(&ei.possible_bit_flips))
+    // the instruction analysis as the processed state shows it: accesses (address:null flag) and the
+    // instruction-pointer update (its type lives in a private module: read it off the Debug form)
+    let acc = if ei.instruction_str.is_none() {
+        "-2".to_string()
+    } else {
+        match &ei.memory_access_list {
+            None => "-1".to_string(),
+            Some(l) => l
+                .accesses
+                .iter()
+                .map(|a| format!("{}:{}", a.address_info.address, a.address_info.is_likely_null_pointer_dereference as u8))
+                .collect::<Vec<_>>()
+                .join(","),
+        }
+    };
+    let ipd = format!("{:?}", ei.instruction_pointer_update);
+    let ip = if ei.instruction_str.is_none() {
+        "-2".to_string()
+    } else if ipd == "None" {
+        "-1".to_string()
+    } else if ipd == "Some(NoUpdate)" {
+        "0".to_string()
+    } else {
+        let num = |key: &str| -> String {
+            let i = ipd.find(key).unwrap_or_else(|| panic!("ip update debug form: {}", ipd)) + key.len();
+            ipd[i..].chars().take_while(|c| c.is_ascii_alphanumeric()).collect()
+        };
+        format!("1:{}:{}", num("address: "), if num("is_likely_null_pointer_dereference: ") == "true" { 1 } else { 0 })
+    };
+    (ei.address.0, adj, format!("{}", ei.reason), fmt_flips(&ei.possible_bit_flips), format!("{}#{}", acc, ip))
 }
 
 fn run(line: &str) -> String {
@@ -241,7 +277,7 @@ fn run(line: &str) -> String {
                 1 => md::ProcessorArchitecture::PROCESSOR_ARCHITECTURE_AMD64 as u16,
                 _ => md::ProcessorArchitecture::PROCESSOR_ARCHITECTURE_ARM64 as u16,
             };
-            let (address, adj, reason, flips) = run_dump(arch, os, code, 0, nparams, info0, info1, excaddr, ctxv, &instr, kind, &regs);
+            let (address, adj, reason, flips, _analysis) = run_dump(arch, os, code, 0, nparams, info0, info1, excaddr, ctxv, &instr, &[], kind, &regs);
             format!("{}/{}/{}#{}", address, adj, reason, flips)
         }
         "Q" => {
@@ -255,10 +291,13 @@ fn run(line: &str) -> String {
             let excaddr = t.u64();
             let ctxv = parse_ctx(&mut t);
             let instr = unhex(t.str());
-            // the decoded form is for the model only: D <lea> <n> (b i s d)*n | U | -
+            let stack_bytes = unhex(t.str());
+            // the decoded form is for the model only: D <lea> <memsize> <implicit> <ipk> <ipv> <n> (b i s d)*n | U | -
             match t.str() {
                 "D" => {
-                    let _lea = t.u64();
+                    for _ in 0..5 {
+                        t.str();
+                    }
                     let n = t.usize();
                     for _ in 0..4 * n {
                         t.str();
@@ -268,7 +307,10 @@ fn run(line: &str) -> String {
                 x => panic!("dec {}", x),
             }
             let (kind, regs) = parse_regions(&mut t);
-            let (_address, adj, _reason, flips) = run_dump(arch, os, code, flags, nparams, info0, info1, excaddr, ctxv, &instr, kind, &regs);
+            let (_address, adj, _reason, flips, analysis) =
+                run_dump(arch, os, code, flags, nparams, info0, info1, excaddr, ctxv, &instr, &stack_bytes, kind, &regs);
+            return format!("{}#{}#{}", adj, flips, analysis);
+            #[allow(unreachable_code)]
             format!("{}#{}", adj, flips)
         }
         x => panic!("kind {}", x),
